@@ -10,7 +10,7 @@ def run(ctx):
     ctx.rule = ("MC: all reachable archives over 3 keys x curated messages; spec->impl: every (state, call) pair of that "
                 "graph replayed on a real TextArchive; impl->spec: seeded random histories (8 keys, 4 format/endian "
                 "configurations) validated event by event. Non-trivial = call on a non-empty archive or a set.")
-    binary = ctx.build("release")
+    binary = ctx.build("release", "mvh_text")
     env = {"VERIF_TIER": ctx.tier}
     # 1. the laws hold in the reference semantics (spec defect if not -> tool error)
     r = ctx.tlc("MC_TextArchive", "MC_TextArchive.cfg", env=env, coverage=True)
@@ -22,7 +22,7 @@ def run(ctx):
         raise vlib.ToolError("generator produced no cases")
     cpath, opath = ctx.path("cases.ndjson"), ctx.path("replay_out.ndjson")
     vlib.write_ndjson(cpath, cases)
-    ctx.harness(binary, ["textarchive", "replay", cpath, opath])
+    ctx.harness(binary, ["replay", cpath, opath])
     out = vlib.read_ndjson(opath)
     summ = [o for o in out if o["kind"] == "summary"][0]
     for o in out:
@@ -37,7 +37,7 @@ def run(ctx):
     # 3. impl -> spec
     runs, length = ctx.pick((40, 150), (400, 300))
     tpath = ctx.path("trace.ndjson")
-    ctx.harness(binary, ["textarchive", "record", tpath, str(runs), str(length)])
+    ctx.harness(binary, ["record", tpath, str(runs), str(length)])
     events = vlib.read_ndjson(tpath)
     t = ctx.tlc("Trace_TextArchive", env={"TRACE": tpath}, workers=1, count=False, deque=True)
     rep = t.tagged("R")
@@ -61,12 +61,12 @@ def run(ctx):
 
 
 def replay(ctx, rp):
-    binary = ctx.build("release")
+    binary = ctx.build("release", "mvh_text")
     d = rp["detail"]
     if "case" in d:
         cpath, opath = ctx.path("c.ndjson"), ctx.path("o.ndjson")
         vlib.write_ndjson(cpath, [d["case"]])
-        ctx.harness(binary, ["textarchive", "replay", cpath, opath])
+        ctx.harness(binary, ["replay", cpath, opath])
         for o in vlib.read_ndjson(opath):
             print(o)
             if o["kind"] == "mismatch":
